@@ -47,8 +47,14 @@ def make_harness(kind, out_sz, in_sz, ca, maxlen, unrelated, delay_msgs=99):
                 out["ret"] = await busmodel.with_bus(ec, bus, coro)
             except eth.EtherCatError as ex:
                 out["raised"] = ex
+            except busmodel.Rejected as ex:
+                out["rejected"] = ex
             out["key"] = key
         pysym.run_async(main, max_steps=20000)
+        if "rejected" in out:
+            E.fail("conformant terminal rejects the master's message: "
+                   f"{out['rejected']}")
+            return
         for v in model.violations:
             E.fail(f"conformant terminal rejects the master's message: {v}")
         for d, ln in model.messages:
